@@ -1,3 +1,750 @@
 import NeumannModel.KV.Model
+/-
+  Helper lemmas for C11 (core Lean only).
+-/
 namespace Neumann.KV
+
+/-! ### association lists -/
+
+theorem aget_aerase {α β} [DecidableEq α] (m : List (α × β)) (k k' : α) :
+    aget (aerase m k) k' = if k = k' then none else aget m k' := by
+  induction m with
+  | nil => simp [aerase, aget]
+  | cons p r ih =>
+    obtain ⟨a, b⟩ := p
+    unfold aerase at ih ⊢
+    by_cases h : a = k
+    · subst h
+      by_cases h' : a = k'
+      · subst h'; simpa [aget] using ih
+      · simp only [List.filter, decide_true, Bool.not_true, aget, h', if_false] at ih ⊢
+        simpa [h'] using ih
+    · by_cases h' : k = k'
+      · subst h'
+        simp only [List.filter, h, decide_false, Bool.not_false, aget, if_false, if_true] at ih ⊢
+        simpa using ih
+      · simp only [List.filter, h, decide_false, Bool.not_false, aget] at ih ⊢
+        by_cases h'' : a = k'
+        · simp [h'', h']
+        · simpa [h'', h'] using ih
+
+theorem aget_aset {α β} [DecidableEq α] (m : List (α × β)) (k k' : α) (v : β) :
+    aget (aset m k v) k' = if k = k' then some v else aget m k' := by
+  unfold aset
+  by_cases h : k = k'
+  · simp [aget, h]
+  · simp [aget, h, aget_aerase]
+
+theorem mem_keys_iff {α β} [DecidableEq α] (m : List (α × β)) (k : α) :
+    k ∈ m.map (·.1) ↔ (aget m k).isSome = true := by
+  induction m with
+  | nil => simp [aget]
+  | cons p r ih =>
+    obtain ⟨a, b⟩ := p
+    by_cases h : a = k
+    · simp [aget, h]
+    · simp only [List.map_cons, List.mem_cons, aget, h, if_false]
+      constructor
+      · rintro (h' | h')
+        · exact absurd h'.symm h
+        · exact ih.mp h'
+      · intro h'; exact Or.inr (ih.mpr h')
+
+/-! ### sequential validity -/
+
+/-- as `SeqValid`, with every result exactly the specification's (no "cache may be absent") -/
+def SeqStrict : Spec → List OpRec → Prop
+  | _, [] => True
+  | σ, r :: rs => resEquiv r.res (specRes σ r.op) ∧ SeqStrict (specApply σ r.op) rs
+
+theorem SeqStrict.valid : ∀ {σ : Spec} {l : List OpRec}, SeqStrict σ l → SeqValid σ l
+  | _, [], _ => trivial
+  | _, _ :: _, h => ⟨Or.inl h.1, SeqStrict.valid h.2⟩
+
+theorem seqStrict_append (σ : Spec) (l : List OpRec) (r : OpRec) :
+    SeqStrict σ (l ++ [r]) ↔
+      SeqStrict σ l ∧ resEquiv r.res (specRes (specRun σ (l.map (·.op))) r.op) := by
+  induction l generalizing σ with
+  | nil => simp [SeqStrict, specRun]
+  | cons a l ih =>
+    simp only [List.cons_append, SeqStrict, List.map_cons, specRun, List.foldl_cons]
+    rw [ih]
+    simp only [specRun, and_assoc]
+
+theorem specRun_append (σ : Spec) (l : List Op) (o : Op) :
+    specRun σ (l ++ [o]) = specApply (specRun σ l) o := by
+  simp [specRun, List.foldl_append]
+
+theorem resEquiv_refl (r : Res) : resEquiv r r := by
+  cases r <;> simp [resEquiv]
+
+/-! ### abstraction relation for the single-step fragment -/
+
+/-- the store, seen by single-step operations, is the specification map: metadata slab for every
+    non-cache key, cache ring for cache keys, nothing in the entity index -/
+structure Abs (s : Store) (σ : Spec) : Prop where
+  get : ∀ k, aget σ k = if k.cls = .cache then aget s.cache k else aget s.md k
+  mdNoCache : ∀ k, k.cls = .cache → aget s.md k = none
+  cacheOnly : ∀ k, k.cls ≠ .cache → aget s.cache k = none
+  vocab : s.vocab = []
+
+theorem Abs.init (w : Bool) : Abs { walOn := w } [] := by
+  constructor <;> simp [aget]
+
+theorem Abs.setMd {s : Store} {σ : Spec} (h : Abs s σ) (k : Key) (v : Val) (hk : k.cls ≠ .cache) :
+    Abs { s with md := aset s.md k v } (aset σ k v) := by
+  constructor
+  · intro k'
+    simp only [aget_aset, h.get k']
+    by_cases e : k = k'
+    · subst e; simp [hk]
+    · simp [e]
+  · intro k' hk'
+    simp only [aget_aset]
+    by_cases e : k = k'
+    · subst e; exact absurd hk' hk
+    · simp [e, h.mdNoCache k' hk']
+  · exact h.cacheOnly
+  · exact h.vocab
+
+theorem Abs.setCache {s : Store} {σ : Spec} (h : Abs s σ) (k : Key) (v : Val) (hk : k.cls = .cache) :
+    Abs { s with cache := aset s.cache k v } (aset σ k v) := by
+  constructor
+  · intro k'
+    simp only [aget_aset, h.get k']
+    by_cases e : k = k'
+    · subst e; simp [hk]
+    · simp [e]
+  · exact h.mdNoCache
+  · intro k' hk'
+    simp only [aget_aset]
+    by_cases e : k = k'
+    · subst e; exact absurd hk hk'
+    · simp [e, h.cacheOnly k' hk']
+  · exact h.vocab
+
+theorem Abs.delMd {s : Store} {σ : Spec} (h : Abs s σ) (k : Key) (hk : k.cls ≠ .cache) :
+    Abs { s with md := aerase s.md k } (aerase σ k) := by
+  constructor
+  · intro k'
+    simp only [aget_aerase, h.get k']
+    by_cases e : k = k'
+    · subst e; simp [hk]
+    · simp [e]
+  · intro k' hk'
+    simp only [aget_aerase]
+    by_cases e : k = k'
+    · simp [e]
+    · simp [e, h.mdNoCache k' hk']
+  · exact h.cacheOnly
+  · exact h.vocab
+
+theorem Abs.delCache {s : Store} {σ : Spec} (h : Abs s σ) (k : Key) (hk : k.cls = .cache) :
+    Abs { s with cache := aerase s.cache k } (aerase σ k) := by
+  constructor
+  · intro k'
+    simp only [aget_aerase, h.get k']
+    by_cases e : k = k'
+    · subst e; simp [hk]
+    · simp [e]
+  · exact h.mdNoCache
+  · intro k' hk'
+    simp only [aget_aerase]
+    by_cases e : k = k'
+    · simp [e]
+    · simp [e, h.cacheOnly k' hk']
+  · exact h.vocab
+
+/-- a key is in the model's scan iff it is in the specification's -/
+theorem Abs.scan {s : Store} {σ : Spec} (h : Abs s σ) (p : Option KeyClass) (k : Key) :
+    k ∈ scanNow s p ↔ k ∈ (σ.map (·.1)).filter (pmatch p) := by
+  simp only [scanNow, h.vocab, liveKeys, List.filter_nil, List.map_nil, List.append_nil,
+    List.mem_append, List.mem_filter, mem_keys_iff, h.get k]
+  by_cases hk : k.cls = .cache
+  · simp [hk, h.mdNoCache k hk]
+  · simp [hk, h.cacheOnly k hk]
+
+/-! ### one single-step operation = one step of the specification -/
+
+theorem single_step_refines {s : Store} {σ : Spec} (h : Abs s σ) (op : Op) (hs : op.singleStep) :
+    ∃ s' r, stepOp s op .start = (s', .done r) ∧ resEquiv r (specRes σ op) ∧
+      Abs s' (specApply σ op) := by
+  cases op with
+  | put k v =>
+    have hk : k.cls ≠ .emb := hs
+    by_cases hc : k.cls = .cache
+    · refine ⟨{ s with cache := aset s.cache k v }, .ok, ?_, by simp [resEquiv, specRes, specStep], ?_⟩
+      · simp [stepOp, routerPut, hc]
+      · simpa [specApply, specStep] using h.setCache k v hc
+    · refine ⟨{ s with md := aset s.md k v }, .ok, ?_, by simp [resEquiv, specRes, specStep], ?_⟩
+      · cases hcl : k.cls <;> simp_all [stepOp, routerPut]
+      · simpa [specApply, specStep] using h.setMd k v hc
+  | get k =>
+    have hk : k.cls ≠ .emb := hs
+    by_cases hc : k.cls = .cache
+    · refine ⟨s, (match aget s.cache k with | some v => .found v | none => .notFound),
+        by simp [stepOp, routerGet, hc]; cases aget s.cache k <;> rfl, ?_,
+        by simpa [specApply, specStep] using h⟩
+      simp only [specRes, specStep, h.get k, hc, if_true]
+      exact resEquiv_refl _
+    · refine ⟨s, mdGet s k, by cases hcl : k.cls <;> simp_all [stepOp, routerGet], ?_,
+        by simpa [specApply, specStep] using h⟩
+      simp only [specRes, specStep, h.get k, hc, if_false, mdGet]
+      exact resEquiv_refl _
+  | delete k =>
+    have hk : k.cls ≠ .emb := hs
+    by_cases hc : k.cls = .cache
+    · have hg := h.get k
+      simp only [hc, if_true] at hg
+      cases hv : aget s.cache k with
+      | none =>
+        refine ⟨s, .notFound, by simp [stepOp, routerDelete, existsNow, hc, hv], ?_, ?_⟩
+        · simp [specRes, specStep, hg, hv, resEquiv]
+        · simpa [specApply, specStep, hg, hv] using h
+      | some v =>
+        refine ⟨{ s with cache := aerase s.cache k }, .ok,
+          by simp [stepOp, routerDelete, existsNow, hc, hv], ?_, ?_⟩
+        · simp [specRes, specStep, hg, hv, resEquiv]
+        · simpa [specApply, specStep, hg, hv] using h.delCache k hc
+    · have hg := h.get k
+      simp only [hc, if_false] at hg
+      cases hv : aget s.md k with
+      | none =>
+        refine ⟨s, .notFound, by cases hcl : k.cls <;> simp_all [stepOp, routerDelete, existsNow], ?_, ?_⟩
+        · simp [specRes, specStep, hg, hv, resEquiv]
+        · simpa [specApply, specStep, hg, hv] using h
+      | some v =>
+        refine ⟨{ s with md := aerase s.md k }, .ok,
+          by cases hcl : k.cls <;> simp_all [stepOp, routerDelete, existsNow], ?_, ?_⟩
+        · simp [specRes, specStep, hg, hv, resEquiv]
+        · simpa [specApply, specStep, hg, hv] using h.delMd k hc
+  | exists_ k =>
+    have hk : k.cls ≠ .emb := hs
+    refine ⟨s, .bool (existsNow s k), by simp [stepOp], ?_, by simpa [specApply, specStep] using h⟩
+    have hg := h.get k
+    by_cases hc : k.cls = .cache
+    · simp [specRes, specStep, hg, hc, existsNow, resEquiv]
+    · cases hcl : k.cls <;> simp_all [specRes, specStep, existsNow, resEquiv]
+  | scan p =>
+    refine ⟨s, .keys (scanNow s p), by simp [stepOp], ?_, by simpa [specApply, specStep] using h⟩
+    simp only [specRes, specStep, resEquiv]
+    exact ⟨fun k hk => (h.scan p k).mp hk, fun k hk => (h.scan p k).mpr hk⟩
+  | putD k v =>
+    have hc : k.cls = .cache := hs
+    refine ⟨{ s with cache := aset s.cache k v }, .ok, ?_, by simp [resEquiv, specRes, specStep], ?_⟩
+    · simp [stepOp, routerPut, hc]
+    · simpa [specApply, specStep] using h.setCache k v hc
+  | delD k =>
+    have hc : k.cls = .cache := hs
+    have hg := h.get k
+    simp only [hc, if_true] at hg
+    cases hv : aget s.cache k with
+    | none =>
+      refine ⟨s, .notFound, by simp [stepOp, routerDelete, existsNow, hc, hv], ?_, ?_⟩
+      · simp [specRes, specStep, hg, hv, resEquiv]
+      · simpa [specApply, specStep, hg, hv] using h
+    | some v =>
+      refine ⟨{ s with cache := aerase s.cache k }, .ok,
+        by simp [stepOp, routerDelete, existsNow, hc, hv], ?_, ?_⟩
+      · simp [specRes, specStep, hg, hv, resEquiv]
+      · simpa [specApply, specStep, hg, hv] using h.delCache k hc
+
+/-! ### the invariant of a run of single-step operations -/
+
+structure Inv (sys : Sys) : Prop where
+  abs : Abs sys.store (specRun [] (sys.hist.map (·.op)))
+  strict : SeqStrict [] sys.hist
+  threads : ∀ th ∈ sys.threads, th.pc = .start ∧ ∀ op ∈ th.ops, op.singleStep
+  times : ∀ r ∈ sys.hist, r.inv = r.ret ∧ r.ret < sys.clock
+  sorted : sys.hist.Pairwise (fun a b => a.ret < b.inv)
+
+theorem Inv.init (w : Bool) (progs : List ThreadProgram)
+    (h : ∀ p ∈ progs, ∀ op ∈ p, op.singleStep) : Inv (initSys w progs) := by
+  constructor
+  · exact Abs.init w
+  · trivial
+  · intro th hth
+    simp only [initSys, List.mem_map] at hth
+    obtain ⟨p, hp, rfl⟩ := hth
+    exact ⟨rfl, h p hp⟩
+  · intro r hr; simp [initSys] at hr
+  · simp [initSys]
+
+theorem Inv.step {sys : Sys} (h : Inv sys) (t : Nat) : Inv (step sys t) := by
+  unfold Neumann.KV.step
+  split
+  · exact h
+  · rename_i th hth
+    split
+    · exact h
+    · rename_i op rest hops
+      have hmem : th ∈ sys.threads := List.mem_of_getElem? hth
+      obtain ⟨hpc, hss⟩ := h.threads th hmem
+      have hop : op.singleStep := hss op (by simp [hops])
+      obtain ⟨s', r, hstep, hres, habs⟩ := single_step_refines h.abs op hop
+      simp only [hpc, hstep, if_true]
+      constructor
+      · simp only [List.map_append, List.map_cons, List.map_nil, specRun_append]
+        exact habs
+      · exact (seqStrict_append _ _ _).mpr ⟨h.strict, hres⟩
+      · intro th' hm
+        rcases List.mem_or_eq_of_mem_set hm with h1 | h1
+        · exact h.threads th' h1
+        · subst h1
+          exact ⟨rfl, fun o ho => hss o (by simp [hops, ho])⟩
+      · intro x hx
+        simp only [List.mem_append, List.mem_singleton] at hx
+        rcases hx with hx | hx
+        · exact ⟨(h.times x hx).1, Nat.lt_succ_of_lt (h.times x hx).2⟩
+        · subst hx; exact ⟨rfl, Nat.lt_succ_self _⟩
+      · refine List.pairwise_append.mpr ⟨h.sorted, by simp, ?_⟩
+        intro a ha b hb
+        simp only [List.mem_singleton] at hb
+        subst hb
+        exact (h.times a ha).2
+
+theorem Inv.run {sys : Sys} (h : Inv sys) (sched : List Nat) : Inv (runFrom sys sched) := by
+  induction sched generalizing sys with
+  | nil => exact h
+  | cons t rest ih => exact ih (h.step t)
+
+theorem Inv.linearizable {sys : Sys} (h : Inv sys) : Linearizable sys.hist := by
+  refine ⟨sys.hist, List.Perm.refl _, h.strict.valid, ?_⟩
+  refine List.Pairwise.imp_of_mem ?_ h.sorted
+  intro a b ha hb hab hba
+  have := (h.times a ha).1
+  have := (h.times b hb).1
+  omega
+
+/-! ### a read returns only values that were written -/
+
+theorem aget_specApply {σ : Spec} {op : Op} {k : Key} {v : Val}
+    (h : aget (specApply σ op) k = some v) :
+    aget σ k = some v ∨ op = .put k v ∨ op = .putD k v := by
+  cases op with
+  | put k' v' =>
+    simp only [specApply, specStep, aget_aset] at h
+    by_cases e : k' = k
+    · subst e; simp only [if_true, Option.some.injEq] at h; subst h; exact Or.inr (Or.inl rfl)
+    · simp only [e, if_false] at h; exact Or.inl h
+  | putD k' v' =>
+    simp only [specApply, specStep, aget_aset] at h
+    by_cases e : k' = k
+    · subst e; simp only [if_true, Option.some.injEq] at h; subst h; exact Or.inr (Or.inr rfl)
+    · simp only [e, if_false] at h; exact Or.inl h
+  | delete k' =>
+    simp only [specApply, specStep] at h
+    cases hv : aget σ k' with
+    | none => rw [hv] at h; exact Or.inl h
+    | some w =>
+      rw [hv] at h
+      simp only [aget_aerase] at h
+      by_cases e : k' = k
+      · simp [e] at h
+      · simp only [e, if_false] at h; exact Or.inl h
+  | delD k' =>
+    simp only [specApply, specStep] at h
+    cases hv : aget σ k' with
+    | none => rw [hv] at h; exact Or.inl h
+    | some w =>
+      rw [hv] at h
+      simp only [aget_aerase] at h
+      by_cases e : k' = k
+      · simp [e] at h
+      · simp only [e, if_false] at h; exact Or.inl h
+  | get _ => exact Or.inl h
+  | exists_ _ => exact Or.inl h
+  | scan _ => exact Or.inl h
+
+/-- in a legal sequential execution a `get` that finds `v` finds the initial value or the value
+    of some put of the same key in the execution -/
+theorem seqValid_get_written {σ : Spec} {l : List OpRec} (hv : SeqValid σ l)
+    {r : OpRec} (hr : r ∈ l) {k : Key} {v : Val} (hop : r.op = .get k) (hres : r.res = .found v) :
+    aget σ k = some v ∨ ∃ w ∈ l, w.op = .put k v ∨ w.op = .putD k v := by
+  induction l generalizing σ with
+  | nil => cases hr
+  | cons a rest ih =>
+    obtain ⟨hok, hrest⟩ := hv
+    rcases List.mem_cons.mp hr with e | hr'
+    · subst e
+      left
+      rw [hop, hres] at hok
+      rcases hok with hq | hq
+      · simp only [specRes, specStep] at hq
+        cases hg : aget σ k with
+        | none => rw [hg] at hq; simp [resEquiv] at hq
+        | some w => rw [hg] at hq; simp only [resEquiv, Res.found.injEq] at hq; rw [hq]
+      · exact absurd hq (by simp [absentOk])
+    · rcases ih hrest hr' with h1 | ⟨w, hw, hw'⟩
+      · rcases aget_specApply h1 with h2 | h2
+        · exact Or.inl h2
+        · exact Or.inr ⟨a, List.mem_cons_self, h2⟩
+      · exact Or.inr ⟨w, List.mem_cons_of_mem _ hw, hw'⟩
+
+/-! ### durable writers that own their keys -/
+
+theorem view_of_shape (s1 s2 : Store) (k : Key)
+    (h1 : s1.vocab = [] ∧ s1.slab = [] ∧ s1.cache = [])
+    (h2 : s2.vocab = [] ∧ s2.slab = [] ∧ s2.cache = [])
+    (hmd : aget s1.md k = aget s2.md k) : view s1 k = view s2 k := by
+  obtain ⟨a1, b1, c1⟩ := h1
+  obtain ⟨a2, b2, c2⟩ := h2
+  have e1 : decide (k ∈ scanNow s1 none) = (aget s1.md k).isSome := by
+    simp [scanNow, a1, c1, liveKeys, pmatch, mem_keys_iff]
+  have e2 : decide (k ∈ scanNow s2 none) = (aget s2.md k).isSome := by
+    simp [scanNow, a2, c2, liveKeys, pmatch, mem_keys_iff]
+  simp only [view, e1, e2]
+  cases hcl : k.cls <;>
+    simp [seqOp, seqOpAux, stepOp, routerGet, existsNow, mdGet, idxGet, idxGetAux, a1, a2, c1, c2,
+      hcl, hmd, aget]
+
+theorem replay_snoc (w : List Entry) (e : Entry) : replay (w ++ [e]) = applyEntry (replay w) e := by
+  simp [replay, List.foldl_append]
+
+theorem simple_cases {op : Op} (h : op.simpleDurablePut = true) :
+    ∃ k v, op = .putD k v ∧ k.cls ≠ .cache ∧ k.cls ≠ .emb ∧ v.vec = .none := by
+  cases op with
+  | putD k v =>
+    simp only [Op.simpleDurablePut, decide_eq_true_eq] at h
+    exact ⟨k, v, rfl, h⟩
+  | _ => simp [Op.simpleDurablePut] at h
+
+theorem applyEntry_simple (s : Store) (k : Key) (v : Val) (hv : v.vec = .none) (he : k.cls ≠ .emb) :
+    applyEntry s (.metaSet k v) = { s with md := aset s.md k v } := by
+  simp [applyEntry, hv, he]
+
+theorem getElem?_set_cases {α} {l : List α} {t i : Nat} {a x old : α} (hold : l[t]? = some old)
+    (h : (l.set t a)[i]? = some x) : (i = t ∧ x = a) ∨ (i ≠ t ∧ l[i]? = some x) := by
+  by_cases e : i = t
+  · subst e
+    obtain ⟨hlt, _⟩ := List.getElem?_eq_some_iff.mp hold
+    rw [List.getElem?_set_self hlt] at h
+    exact Or.inl ⟨rfl, (Option.some.inj h).symm⟩
+  · rw [List.getElem?_set_ne (Ne.symm e)] at h
+    exact Or.inr ⟨e, h⟩
+
+/-- thread `th` has logged `put_durable k v` and not yet applied it -/
+def pendingPut (th : Thread) (k : Key) (v : Val) : Prop :=
+  th.pc = .putDAfterLog ∧ ∃ rest, th.ops = .putD k v :: rest
+
+/-- invariant of runs of durable writers (vector-free values, plain/graph/table keys) in which no
+    key is written by two threads: the replayed log agrees with memory on every key except those
+    of a write that is logged and not yet applied, where it already holds the logged value -/
+structure DInv (sys : Sys) : Prop where
+  walOn : sys.store.walOn = true
+  shape : sys.store.vocab = [] ∧ sys.store.slab = [] ∧ sys.store.cache = []
+  rshape : (replay sys.store.wal).vocab = [] ∧ (replay sys.store.wal).slab = [] ∧
+    (replay sys.store.wal).cache = []
+  pcs : ∀ th ∈ sys.threads, (th.pc = .start ∨ th.pc = .putDAfterLog) ∧
+    ∀ op ∈ th.ops, op.simpleDurablePut = true
+  own : ∀ (i j : Nat) (thi thj : Thread), sys.threads[i]? = some thi → sys.threads[j]? = some thj →
+    i ≠ j → ∀ a ∈ thi.ops, ∀ b ∈ thj.ops, Op.key? a ≠ Op.key? b
+  pend : ∀ (i : Nat) (th : Thread) (k : Key) (v : Val), sys.threads[i]? = some th → pendingPut th k v →
+    aget (replay sys.store.wal).md k = some v
+  idle : ∀ k : Key, (∀ (i : Nat) (th : Thread) (v : Val), sys.threads[i]? = some th → ¬ pendingPut th k v) →
+    aget (replay sys.store.wal).md k = aget sys.store.md k
+
+/-- no key is written by two different threads -/
+def KeysOwned (progs : List ThreadProgram) : Prop :=
+  ∀ (i j : Nat) (pi pj : ThreadProgram), progs[i]? = some pi → progs[j]? = some pj → i ≠ j →
+    ∀ a ∈ pi, ∀ b ∈ pj, Op.key? a ≠ Op.key? b
+
+theorem DInv.init (progs : List ThreadProgram)
+    (h : ∀ p ∈ progs, ∀ op ∈ p, op.simpleDurablePut = true) (ho : KeysOwned progs) :
+    DInv (initSys true progs) := by
+  constructor
+  · rfl
+  · exact ⟨rfl, rfl, rfl⟩
+  · exact ⟨rfl, rfl, rfl⟩
+  · intro th hth
+    simp only [initSys, List.mem_map] at hth
+    obtain ⟨p, hp, rfl⟩ := hth
+    exact ⟨Or.inl rfl, h p hp⟩
+  · intro i j thi thj hi hj hij a ha b hb
+    simp only [initSys, List.getElem?_map, Option.map_eq_some_iff] at hi hj
+    obtain ⟨pi, hpi, rfl⟩ := hi
+    obtain ⟨pj, hpj, rfl⟩ := hj
+    exact ho i j pi pj hpi hpj hij a ha b hb
+  · intro i th k v hi hp
+    simp only [initSys, List.getElem?_map, Option.map_eq_some_iff] at hi
+    obtain ⟨p, _, rfl⟩ := hi
+    exact absurd hp.1 (by simp)
+  · intro k _
+    rfl
+
+theorem DInv.step {sys : Sys} (h : DInv sys) (t : Nat) : DInv (step sys t) := by
+  unfold Neumann.KV.step
+  split
+  · exact h
+  · rename_i th hth
+    split
+    · exact h
+    · rename_i op rest hops
+      have hmem : th ∈ sys.threads := List.mem_of_getElem? hth
+      obtain ⟨hpc, hsimple⟩ := h.pcs th hmem
+      obtain ⟨k, v, rfl, hc, he, hv⟩ := simple_cases (hsimple op (by simp [hops]))
+      -- the key of the current op belongs to thread `t` only
+      have hown : ∀ i th', sys.threads[i]? = some th' → i ≠ t →
+          ∀ b ∈ th'.ops, b.key? ≠ some k := by
+        intro i th' hi hit b hb hbk
+        exact h.own i t th' th hi hth hit b hb (.putD k v) (by simp [hops]) (by simpa [Op.key?] using hbk)
+      rcases hpc with hpc | hpc
+      · -- the log step
+        have hstep : stepOp sys.store (.putD k v) .start =
+            ({ sys.store with wal := sys.store.wal ++ [.metaSet k v] }, .cont .putDAfterLog) := by
+          simp [stepOp, hc, logPut, h.walOn, hv]
+        simp only [hpc, hstep, if_true]
+        have hrep : replay (sys.store.wal ++ [.metaSet k v]) =
+            { replay sys.store.wal with md := aset (replay sys.store.wal).md k v } := by
+          rw [replay_snoc, applyEntry_simple _ _ _ hv he]
+        constructor
+        · exact h.walOn
+        · exact h.shape
+        · simpa only [hrep] using h.rshape
+        · intro th' hm
+          rcases List.mem_or_eq_of_mem_set hm with h1 | h1
+          · exact h.pcs th' h1
+          · subst h1; exact ⟨Or.inr rfl, hsimple⟩
+        · intro i j thi thj hi hj hij a ha b hb
+          rcases getElem?_set_cases hth hi with ⟨rfl, rfl⟩ | ⟨hit, hi'⟩ <;>
+            rcases getElem?_set_cases hth hj with ⟨rfl, rfl⟩ | ⟨hjt, hj'⟩
+          · exact absurd rfl hij
+          · exact h.own _ _ th thj hth hj' hij a ha b hb
+          · exact h.own _ _ thi th hi' hth hij a ha b hb
+          · exact h.own _ _ thi thj hi' hj' hij a ha b hb
+        · intro i th' k' v' hi hp
+          simp only [hrep, aget_aset]
+          rcases getElem?_set_cases hth hi with ⟨rfl, rfl⟩ | ⟨hit, hi'⟩
+          · obtain ⟨_, rest', hr⟩ := hp
+            simp only [hops, List.cons.injEq, Op.putD.injEq] at hr
+            obtain ⟨⟨rfl, rfl⟩, _⟩ := hr
+            simp
+          · have hne : k ≠ k' := by
+              intro e
+              obtain ⟨_, rest', hr⟩ := hp
+              exact hown i th' hi' hit (.putD k' v') (by simp [hr]) (by simp [Op.key?, e])
+            simp only [hne, if_false]
+            exact h.pend i th' k' v' hi' hp
+        · intro k' hidle
+          simp only [hrep, aget_aset]
+          have hne : k ≠ k' := by
+            intro e
+            obtain ⟨hlt, _⟩ := List.getElem?_eq_some_iff.mp hth
+            exact hidle t _ v (List.getElem?_set_self hlt) ⟨rfl, rest, by simp [hops, e]⟩
+          simp only [hne, if_false]
+          apply h.idle k'
+          intro i th' v' hi hp
+          by_cases hit : i = t
+          · subst hit
+            rw [hth] at hi
+            obtain rfl := Option.some.inj hi
+            exact absurd hp.1 (by simp [hpc])
+          · exact hidle i th' v' (by rw [List.getElem?_set_ne (Ne.symm hit)]; exact hi) hp
+      · -- the apply step
+        have hstep : stepOp sys.store (.putD k v) .putDAfterLog =
+            ({ sys.store with md := aset sys.store.md k v }, .done .ok) := by
+          cases hcl : k.cls <;> simp_all [stepOp, routerPut]
+        simp only [hpc, hstep]
+        have hpk : aget (replay sys.store.wal).md k = some v :=
+          h.pend t th k v hth ⟨hpc, rest, hops⟩
+        constructor
+        · exact h.walOn
+        · exact h.shape
+        · exact h.rshape
+        · intro th' hm
+          rcases List.mem_or_eq_of_mem_set hm with h1 | h1
+          · exact h.pcs th' h1
+          · subst h1
+            exact ⟨Or.inl rfl, fun o ho => hsimple o (by simp [hops, ho])⟩
+        · intro i j thi thj hi hj hij a ha b hb
+          rcases getElem?_set_cases hth hi with ⟨rfl, rfl⟩ | ⟨hit, hi'⟩ <;>
+            rcases getElem?_set_cases hth hj with ⟨rfl, rfl⟩ | ⟨hjt, hj'⟩
+          · exact absurd rfl hij
+          · exact h.own _ _ th thj hth hj' hij a (by simp [hops]; exact Or.inr ha) b hb
+          · exact h.own _ _ thi th hi' hth hij a ha b (by simp [hops]; exact Or.inr hb)
+          · exact h.own _ _ thi thj hi' hj' hij a ha b hb
+        · intro i th' k' v' hi hp
+          rcases getElem?_set_cases hth hi with ⟨rfl, rfl⟩ | ⟨hit, hi'⟩
+          · exact absurd hp.1 (by simp)
+          · exact h.pend i th' k' v' hi' hp
+        · intro k' hidle
+          simp only [aget_aset]
+          by_cases e : k = k'
+          · subst e; simp [hpk]
+          · simp only [e, if_false]
+            apply h.idle k'
+            intro i th' v' hi hp
+            by_cases hit : i = t
+            · subst hit
+              rw [hth] at hi
+              obtain rfl := Option.some.inj hi
+              obtain ⟨_, rest', hr⟩ := hp
+              simp only [hops, List.cons.injEq, Op.putD.injEq] at hr
+              exact e hr.1.1
+            · exact hidle i th' v' (by rw [List.getElem?_set_ne (Ne.symm hit)]; exact hi) hp
+
+theorem DInv.run {sys : Sys} (h : DInv sys) (sched : List Nat) : DInv (runFrom sys sched) := by
+  induction sched generalizing sys with
+  | nil => exact h
+  | cons t rest ih => exact ih (h.step t)
+
+/-! ### the repaired durable write: log mutex held across the apply -/
+
+/-- invariant of lock-respecting runs of durable writers (any keys, contended): at most one
+    thread is between its log step and its apply, and the replayed log agrees with memory on
+    every key except that thread's, where it already holds the logged value -/
+structure LInv (sys : Sys) : Prop where
+  walOn : sys.store.walOn = true
+  shape : sys.store.vocab = [] ∧ sys.store.slab = [] ∧ sys.store.cache = []
+  rshape : (replay sys.store.wal).vocab = [] ∧ (replay sys.store.wal).slab = [] ∧
+    (replay sys.store.wal).cache = []
+  pcs : ∀ th ∈ sys.threads, (th.pc = .start ∨ (th.pc = .putDAfterLog ∧ th.ops ≠ [])) ∧
+    ∀ op ∈ th.ops, op.simpleDurablePut = true
+  excl : ∀ (i j : Nat) (thi thj : Thread), sys.threads[i]? = some thi → sys.threads[j]? = some thj →
+    thi.pc = .putDAfterLog → thj.pc = .putDAfterLog → i = j
+  pend : ∀ (i : Nat) (th : Thread) (k : Key) (v : Val), sys.threads[i]? = some th → pendingPut th k v →
+    aget (replay sys.store.wal).md k = some v
+  idle : ∀ k : Key, (∀ (i : Nat) (th : Thread) (v : Val), sys.threads[i]? = some th → ¬ pendingPut th k v) →
+    aget (replay sys.store.wal).md k = aget sys.store.md k
+
+theorem LInv.init (progs : List ThreadProgram)
+    (h : ∀ p ∈ progs, ∀ op ∈ p, op.simpleDurablePut = true) : LInv (initSys true progs) := by
+  constructor
+  · rfl
+  · exact ⟨rfl, rfl, rfl⟩
+  · exact ⟨rfl, rfl, rfl⟩
+  · intro th hth
+    simp only [initSys, List.mem_map] at hth
+    obtain ⟨p, hp, rfl⟩ := hth
+    exact ⟨Or.inl rfl, h p hp⟩
+  · intro i j thi thj hi hj hpi
+    simp only [initSys, List.getElem?_map, Option.map_eq_some_iff] at hi
+    obtain ⟨p, _, rfl⟩ := hi
+    exact absurd hpi (by simp)
+  · intro i th k v hi hp
+    simp only [initSys, List.getElem?_map, Option.map_eq_some_iff] at hi
+    obtain ⟨p, _, rfl⟩ := hi
+    exact absurd hp.1 (by simp)
+  · intro k _
+    rfl
+
+theorem LInv.step {sys : Sys} (h : LInv sys) (t : Nat) : LInv (stepLocked sys t) := by
+  unfold stepLocked
+  split
+  · exact h
+  · rename_i th hth
+    split
+    · exact h
+    · rename_i op rest hops
+      split
+      · exact h
+      · rename_i hguard
+        have hmem : th ∈ sys.threads := List.mem_of_getElem? hth
+        obtain ⟨hpc, hsimple⟩ := h.pcs th hmem
+        obtain ⟨k, v, rfl, hc, he, hv⟩ := simple_cases (hsimple op (by simp [hops]))
+        unfold Neumann.KV.step
+        simp only [hth, hops]
+        rcases hpc with hpc | ⟨hpc, _⟩
+        · -- the log step: nobody holds the mutex
+          have hfree : ∀ th' ∈ sys.threads, th'.pc ≠ .putDAfterLog := by
+            intro th' hm hp'
+            apply hguard
+            obtain ⟨hpc', hs'⟩ := h.pcs th' hm
+            rcases hpc' with e | ⟨_, hne⟩
+            · rw [e] at hp'; cases hp'
+            · cases hops' : th'.ops with
+              | nil => exact absurd hops' hne
+              | cons o r =>
+                obtain ⟨k', v', rfl, hc', _, _⟩ := simple_cases (hs' o (by simp [hops']))
+                simp only [h.walOn, Op.takesLock, hc, hpc, Bool.and_eq_true, decide_eq_true_eq,
+                  List.any_eq_true, ne_eq, not_false_eq_true, true_and]
+                exact ⟨th', hm, by simp [Thread.inCS, hops', Op.takesLock, hc', hp']⟩
+          have hstep : stepOp sys.store (.putD k v) .start =
+              ({ sys.store with wal := sys.store.wal ++ [.metaSet k v] }, .cont .putDAfterLog) := by
+            simp [stepOp, hc, logPut, h.walOn, hv]
+          simp only [hpc, hstep, if_true]
+          have hrep : replay (sys.store.wal ++ [.metaSet k v]) =
+              { replay sys.store.wal with md := aset (replay sys.store.wal).md k v } := by
+            rw [replay_snoc, applyEntry_simple _ _ _ hv he]
+          constructor
+          · exact h.walOn
+          · exact h.shape
+          · simpa only [hrep] using h.rshape
+          · intro th' hm
+            rcases List.mem_or_eq_of_mem_set hm with h1 | h1
+            · exact h.pcs th' h1
+            · subst h1; exact ⟨Or.inr ⟨rfl, by simp⟩, fun o ho => hsimple o (by simpa [hops] using ho)⟩
+          · intro i j thi thj hi hj hpi hpj
+            rcases getElem?_set_cases hth hi with ⟨rfl, rfl⟩ | ⟨hit, hi'⟩ <;>
+              rcases getElem?_set_cases hth hj with ⟨rfl, rfl⟩ | ⟨hjt, hj'⟩
+            · rfl
+            · exact absurd hpj (hfree thj (List.mem_of_getElem? hj'))
+            · exact absurd hpi (hfree thi (List.mem_of_getElem? hi'))
+            · exact absurd hpi (hfree thi (List.mem_of_getElem? hi'))
+          · intro i th' k' v' hi hp
+            simp only [hrep, aget_aset]
+            rcases getElem?_set_cases hth hi with ⟨rfl, rfl⟩ | ⟨hit, hi'⟩
+            · obtain ⟨_, rest', hr⟩ := hp
+              simp only [hops, List.cons.injEq, Op.putD.injEq] at hr
+              obtain ⟨⟨rfl, rfl⟩, _⟩ := hr
+              simp
+            · exact absurd hp.1 (hfree th' (List.mem_of_getElem? hi'))
+          · intro k' hidle
+            simp only [hrep, aget_aset]
+            have hne : k ≠ k' := by
+              intro e
+              obtain ⟨hlt, _⟩ := List.getElem?_eq_some_iff.mp hth
+              exact hidle t _ v (List.getElem?_set_self hlt) ⟨rfl, rest, by simp [hops, e]⟩
+            simp only [hne, if_false]
+            apply h.idle k'
+            intro i th' v' hi hp
+            exact absurd hp.1 (hfree th' (List.mem_of_getElem? hi))
+        · -- the apply step (mutex released at its end)
+          have hstep : stepOp sys.store (.putD k v) .putDAfterLog =
+              ({ sys.store with md := aset sys.store.md k v }, .done .ok) := by
+            cases hcl : k.cls <;> simp_all [stepOp, routerPut]
+          simp only [hpc, hstep]
+          have hpk : aget (replay sys.store.wal).md k = some v :=
+            h.pend t th k v hth ⟨hpc, rest, hops⟩
+          constructor
+          · exact h.walOn
+          · exact h.shape
+          · exact h.rshape
+          · intro th' hm
+            rcases List.mem_or_eq_of_mem_set hm with h1 | h1
+            · exact h.pcs th' h1
+            · subst h1
+              exact ⟨Or.inl rfl, fun o ho => hsimple o (by simp [hops, ho])⟩
+          · intro i j thi thj hi hj hpi hpj
+            rcases getElem?_set_cases hth hi with ⟨rfl, rfl⟩ | ⟨hit, hi'⟩
+            · exact absurd hpi (by simp)
+            · rcases getElem?_set_cases hth hj with ⟨rfl, rfl⟩ | ⟨hjt, hj'⟩
+              · exact absurd hpj (by simp)
+              · exact h.excl i j thi thj hi' hj' hpi hpj
+          · intro i th' k' v' hi hp
+            rcases getElem?_set_cases hth hi with ⟨rfl, rfl⟩ | ⟨hit, hi'⟩
+            · exact absurd hp.1 (by simp)
+            · exact h.pend i th' k' v' hi' hp
+          · intro k' hidle
+            simp only [aget_aset]
+            by_cases e : k = k'
+            · subst e; simp [hpk]
+            · simp only [e, if_false]
+              apply h.idle k'
+              intro i th' v' hi hp
+              by_cases hit : i = t
+              · subst hit
+                rw [hth] at hi
+                obtain rfl := Option.some.inj hi
+                obtain ⟨_, rest', hr⟩ := hp
+                simp only [hops, List.cons.injEq, Op.putD.injEq] at hr
+                exact e hr.1.1
+              · exact hidle i th' v' (by rw [List.getElem?_set_ne (Ne.symm hit)]; exact hi) hp
+
+theorem LInv.run {sys : Sys} (h : LInv sys) (sched : List Nat) :
+    LInv (sched.foldl stepLocked sys) := by
+  induction sched generalizing sys with
+  | nil => exact h
+  | cons t rest ih => exact ih (h.step t)
+
 end Neumann.KV
